@@ -6,6 +6,7 @@ import os
 import re
 
 from common import S, enc_jv, run_batch, Opaque, work_dir
+from common import corr_kind
 from world import base_case, run_cases, describe, agree, out_of_model, _last_request
 import world
 
@@ -60,6 +61,15 @@ def run(run, binfo):
     wrappers = [('pol', 'http://host/%(name)s'), ('pol', 'not https://h/x'), ('pol', 'role:x or (role:y and http://h/p)'),
                 ('alias', 'rule:pol')]
     cases, wants = [], []
+    # the reply's status code plays no part: the accepted bodies under every status, also as raw bytes, and bodies
+    # that are not valid UTF-8 around the accepted text
+    for b in ('True', '"True"', b'True', b'"True"', b'True\xff', b'\xffTrue', b'Tr\xffue', b'"True\xc3"', b'\xef\xbb\xbfTrue'):
+        for status in (200, 201, 204, 301, 400, 401, 403, 404, 500, 503):
+            c = base_case(rules={'pol': 'http://h/%(name)s', 'alias': 'rule:pol'}, rule=('name', 'pol'),
+                          creds={'roles': ['y']}, target={'name': 'tgt'}, http=('reply', b, status))
+            text = b.decode('utf-8', 'replace') if isinstance(b, bytes) else b
+            cases.append(c)
+            wants.append(('ret', text.lstrip('"').rstrip('"') == 'True'))
     for i, b in enumerate(bodies):
         name, text = wrappers[i % len(wrappers)]
         rules = {'pol': text if name == 'pol' else 'http://h/%(name)s', 'alias': 'rule:pol'}
@@ -169,7 +179,7 @@ def run(run, binfo):
     if bad_corr and not run.violations:
         c, m, i = bad_corr[0]
         run.violation('correspondence:S9', 'model and implementation disagree on a remote check',
-                      {'kind': 'broken-obligation', 'obligation': 'correspondence suite S9 (http)',
+                      {'kind': corr_kind(m), 'oracle': 'the Coq model, for which the property is proved', 'obligation': 'correspondence suite S9 (http)',
                        'input': describe(c), 'model': m, 'observed': i, 'count': len(bad_corr)})
     run.rule = ('every reply body of length <= %d over %r plus %d hand-picked ones (case variants, quotes, whitespace, JSON true, '
                 'empty, long, BOM/NUL, homoglyph), cycling over 9 status codes and 4 placements (direct, under not, nested, through '
